@@ -44,11 +44,19 @@ var unit = sdkmath.NewInt(1_000_000_000_000_000_000)
 // names the wrapper contract as coin receiver.  The specification's `gift`.
 var giftKey = []byte{0xFE, 'g', 'i', 'f', 't'}
 
+// lostKey: the environment's ledger of the token claims (balances outside the module's escrow) that existed when the
+// token's owner destroyed the contract.  The specification's `lost`.
+var lostKey = []byte{0xFE, 'l', 'o', 's', 't'}
+
 type Consts struct {
 	Kind     string `json:"Kind"` // fx | module | external
 	HasAlias bool   `json:"HasAlias"`
 	InitU1   int64  `json:"InitU1"`
 	InitU2   int64  `json:"InitU2"`
+	// Kind = "external": the token is the hand-assembled ordinary ERC-20 of token.go instead of FIP20 behind a proxy when
+	// either trait is asked for: Soft = returns false instead of reverting, Mortal = the owner's kill() is offered
+	Soft   bool `json:"Soft"`
+	Mortal bool `json:"Mortal"`
 	// Kind = "reg" (spec/Erc20Reg.tla): the pairs and the pool of free alias denominations
 	Pair []string `json:"Pair"`
 	Free []string `json:"Free"`
@@ -225,6 +233,21 @@ func New(t *testing.T, c Consts) *Adapter {
 			a.observe(ctx, &cctypes.MsgBridgeTokenClaim{ChainName: chain, BridgerAddress: bridger.AccAddress().String(), EventNonce: 2, BlockHeight: 101,
 				TokenContract: extTok, Name: "Token E", Symbol: "TKE", Decimals: 18})
 		}
+		if c.Soft || c.Mortal {
+			// an ordinary third-party ERC-20 (token.go), deployed by its owner with the whole supply, which the owner hands out
+			nonce := w.App.EvmKeeper.GetNonce(ctx, a.owner.Address())
+			_, err := w.App.EvmKeeper.CallEVMWithoutGas(ctx, a.owner.Address(), nil, nil, TokenInit("Token E", "TKE", c.Soft, big1(c.InitU1+c.InitU2)), true)
+			must(err)
+			a.token = crypto.CreateAddress(a.owner.Address(), nonce)
+			mustf(w.App.EvmKeeper.IsContract(ctx, a.token), "token not deployed")
+			for _, u := range []string{"u1", "u2"} {
+				n := map[string]int64{"u1": c.InitU1, "u2": c.InitU2}[u]
+				w.Fund(ctx, a.user(u).AccAddress(), 1000)
+				ok, msg := a.tokenCall(ctx, a.owner, a.token, a.pack(a.fip20, "transfer", a.user(u).Address(), big1(n)))
+				mustf(ok, "owner transfer: %s", msg)
+			}
+			break
+		}
 		// an ERC-20 owned by an ordinary account: the FIP20 logic behind its own proxy, initialised by the owner
 		fip := contract.GetFIP20()
 		tok, err := w.App.EvmKeeper.DeployUpgradableContract(ctx, a.owner.Address(), fip.Address, nil, &fip.ABI, "Token E", "TKE", uint8(18), a.owner.Address())
@@ -300,6 +323,22 @@ func (a *Adapter) pack(ab abi.ABI, m string, args ...any) []byte {
 	return b
 }
 
+// tokenCall: an account's transfer / approve / transferFrom as a real EVM transaction.  Accepted = the transaction did
+// not revert AND the token answered true (EIP-20: callers must handle `false`; a destroyed contract answers nothing).
+func (a *Adapter) tokenCall(ctx sdk.Context, from *helpers.Signer, token common.Address, data []byte) (bool, string) {
+	res, err := a.W.EthTx(ctx, from, &token, nil, gasLimit, data)
+	if err != nil {
+		return false, err.Error()
+	}
+	if res.VmError != "" {
+		return false, res.VmError
+	}
+	if len(res.Ret) != 32 || new(big.Int).SetBytes(res.Ret).Cmp(big.NewInt(1)) != 0 {
+		return false, fmt.Sprintf("the token answered %x", res.Ret)
+	}
+	return true, ""
+}
+
 func (a *Adapter) Apply(ctx sdk.Context, op graph.Op) (sdk.Context, string) {
 	w := a.W
 	var err error
@@ -312,6 +351,13 @@ func (a *Adapter) Apply(ctx sdk.Context, op graph.Op) (sdk.Context, string) {
 		}
 		return nil
 	}
+	tcall := func(from *helpers.Signer, data []byte) error {
+		if ok, msg := a.tokenCall(ctx, from, token, data); !ok {
+			return fmt.Errorf("%s", msg)
+		}
+		return nil
+	}
+	var lostNow int64 // Kill: the claims that go down with the contract
 	switch op.Name() {
 	case "Register":
 		switch a.C.Kind {
@@ -357,6 +403,12 @@ func (a *Adapter) Apply(ctx sdk.Context, op graph.Op) (sdk.Context, string) {
 			err = fmt.Errorf("the pair's token contract does not exist yet")
 			break
 		}
+		if (op.Name() == "Deposit" || op.Name() == "Withdraw") && !w.App.EvmKeeper.IsContract(ctx, token) {
+			// the wrapper's functions sent to an address without code (a destroyed token): a message call that executes nothing
+			// cannot fail; nothing was deposited or withdrawn, reported as refused (same convention as Kill)
+			err = fmt.Errorf("no contract at the token's address")
+			break
+		}
 		switch op.Name() {
 		case "Deposit":
 			var res *evmtypes.MsgEthereumTxResponse
@@ -368,15 +420,32 @@ func (a *Adapter) Apply(ctx sdk.Context, op graph.Op) (sdk.Context, string) {
 			err = call(a.user(op.Str("u")), token, a.pack(a.wfx, "withdraw", big1(n)))
 		case "Transfer":
 			r, _ := a.addrOf(ctx, op.Str("r"))
-			err = call(a.user(op.Str("u")), token, a.pack(a.fip20, "transfer", r, big1(n)))
+			err = tcall(a.user(op.Str("u")), a.pack(a.fip20, "transfer", r, big1(n)))
 		case "Approve":
 			s, _ := a.addrOf(ctx, op.Str("r"))
-			err = call(a.user(op.Str("u")), token, a.pack(a.fip20, "approve", s, big1(n)))
+			err = tcall(a.user(op.Str("u")), a.pack(a.fip20, "approve", s, big1(n)))
 		case "TransferFrom":
-			err = call(a.user("u2"), token, a.pack(a.fip20, "transferFrom", a.user("u1").Address(), a.user("u2").Address(), big1(n)))
+			err = tcall(a.user("u2"), a.pack(a.fip20, "transferFrom", a.user("u1").Address(), a.user("u2").Address(), big1(n)))
 		case "RunProgram":
 			err = call(a.relayer, a.exe, a.program(token, steps(op)))
 		}
+	case "Kill":
+		// kill() of the hand-assembled token, sent by its owner or by somebody else.  Convention: a message call to an address
+		// without code cannot fail, so "the contract is already gone" is decided here and reported as refused.
+		if !tokOK || !w.App.EvmKeeper.IsContract(ctx, token) {
+			err = fmt.Errorf("there is no contract to destroy")
+			break
+		}
+		from := a.owner
+		if op.Str("by") != "owner" {
+			from = a.user(op.Str("by"))
+		}
+		for h, v := range a.Project(ctx).(map[string]any)["tok"].(map[string]int64) {
+			if h != "mod" {
+				lostNow += v
+			}
+		}
+		err = call(from, token, selKill)
 	default:
 		panic("unknown op " + op.Name())
 	}
@@ -389,7 +458,18 @@ func (a *Adapter) Apply(ctx sdk.Context, op graph.Op) (sdk.Context, string) {
 	if (op.Name() == "Transfer" && a.C.Kind == "external" && op.Str("r") == "mod") || (op.Name() == "ConvertERC20" && a.C.Kind == "fx" && op.Str("r") == "wrap") {
 		a.setGift(ctx, a.gift(ctx)+n)
 	}
+	if op.Name() == "Kill" {
+		ctx.KVStore(a.ekey).Set(lostKey, sdk.Uint64ToBigEndian(uint64(a.lost(ctx)+lostNow)))
+	}
 	return ctx, "ok"
+}
+
+func (a *Adapter) lost(ctx sdk.Context) int64 {
+	bz := ctx.KVStore(a.ekey).Get(lostKey)
+	if len(bz) == 0 {
+		return 0
+	}
+	return int64(sdk.BigEndianToUint64(bz))
 }
 
 func (a *Adapter) gift(ctx sdk.Context) int64 {
@@ -548,5 +628,6 @@ func (a *Adapter) Project(ctx sdk.Context) any {
 	return map[string]any{
 		"coin": coin, "csupply": csupply, "tok": tok, "supply": supply, "allow": allow, "reg": reg, "enabled": reg && pair.Enabled,
 		"byDenom": byDenom, "byToken": byToken, "aliasIdx": aliasIdx, "mdAlias": mdAlias, "pool": units(pool), "calls": units(calls), "gift": a.gift(ctx),
+		"dead": tokOK && !live, "lost": a.lost(ctx),
 	}
 }
